@@ -57,7 +57,8 @@ def gen(rng, allow_generated):
             back = rng.random() < 0.12
             pool = order[:idx] if (not back and idx > 0) else order
             tgt = rng.choice(pool)
-            fname = f"f{k}"
+            # an anonymous field is still a field of the type it names
+            fname = "_" if (kind in ("val", "arr") and rng.random() < 0.15) else f"f{k}"
             if kind == "leaf":
                 fields.append(field(fname, cptr(nm("u8"))))
             elif kind == "val":
